@@ -57,6 +57,23 @@ COMPACT_TIMEOUT = 420
 QUIET_BEFORE_KILL = 4.0
 
 
+class Server(blackbox.Server):
+    """All requests of this check are idempotent (reads; writes of fixed points; create / drop statements), so a
+    request that times out on an overloaded machine is repeated; a server that really hangs still ends as tool error."""
+    timeouts = 0
+
+    def request(self, method, path, params=None, body=None, headers=None, auth="default", timeout=90):
+        for attempt in range(3):
+            try:
+                return blackbox.Server.request(self, method, path, params=params, body=body, headers=headers, auth=auth,
+                                               timeout=timeout)
+            except blackbox.ToolError as e:
+                if "timed out" in str(e) and self.alive() and attempt < 2:
+                    Server.timeouts += 1
+                    continue
+                raise
+
+
 class Run:
     """State of one history while it is driven."""
 
@@ -576,7 +593,7 @@ SRV_EXTRA = {
 def run_server(tier, name, hs, scratch, rep):
     if not hs:
         return
-    srv = blackbox.Server(CID, scratch, name=name, extra=SRV_EXTRA[name])
+    srv = Server(CID, scratch, name=name, extra=SRV_EXTRA[name])
     srv.build()
     srv.start()
     try:
@@ -587,6 +604,8 @@ def run_server(tier, name, hs, scratch, rep):
         drv.execute(S, disable_compaction=(name == "A"), special=special)
         rep.count("histories", len(runs))
         rep.count("histories_with_removal", sum(1 for r in runs if r.removed > 0))
+        if Server.timeouts:
+            rep.count("request_timeouts_retried", Server.timeouts)
     finally:
         srv.stop() if srv.alive() else None
         srv.kill9()
